@@ -83,6 +83,7 @@ type PureFunc struct {
 	Rec     bool          // declared `rec`: uninterpreted + unfolding axiom
 	Opaque  bool
 	Abstract bool         // uninterpreted spec function
+	HasDefault bool       // virtual functions: body is the value for dynamic types without a definition
 	Virtual  bool         // spec-level interface method: value given by `specmethod` definitions per dynamic type
 	RecvType string       // method definitions: receiver type text
 	Method  string
@@ -237,7 +238,14 @@ func parseContractFile(path, pkgPath string) (*PkgContracts, error) {
 				return nil, fmt.Errorf("%s:%d: bad virtual func", path, l.line)
 			}
 			pf := &PureFunc{PkgPath: pkgPath, File: path, Line: l.line, Name: nm[1], FnName: nm[1], Virtual: true}
-			pc.Synth += fmt.Sprintf("//line %s:%d\n%s { panic(0) }\n", path, l.line, head)
+			body := "panic(0)"
+			if di := indexTopLevel(head, " default "); di >= 0 {
+				// value for dynamic types without a specmethod definition
+				body = "return " + rewriteSpec(head[di+9:])
+				head = strings.TrimSpace(head[:di])
+				pf.HasDefault = true
+			}
+			pc.Synth += fmt.Sprintf("//line %s:%d\n%s { %s }\n", path, l.line, head, body)
 			pc.Pures = append(pc.Pures, pf)
 			cur, curLoop = nil, nil
 		case "abstract":
@@ -799,6 +807,9 @@ func unchanged(l ...interface{}) bool { return true }
 func call(f interface{}, args ...interface{}) interface{} { return nil }
 func callb(f interface{}, args ...interface{}) bool { return true }
 func visited(k interface{}) bool { return true }
+func ncalls() int { return 0 }
+func callarg[T any](k, i int) (r T) { return }
+func callres[T any](k, i int) (r T) { return }
 func typeid[T any]() int { return 0 }
 func freshid(i int) bool { return true }
 func maps[T any]() interface{} { return nil }
